@@ -61,6 +61,46 @@ func smgpMap(m smgp.Options) []tlv {
 	return l
 }
 
+// c16Shared records the first parsed container whose values were not independent of one another
+var c16Shared string
+
+// valuesIndependent: the values of a parsed container are the caller's, each one for itself — appending to one
+// (within whatever capacity it came with) must leave the others as they were
+func valuesIndependent(entry string, input []byte, values [][]byte) {
+	if len(values) < 2 || c16Shared != "" {
+		return
+	}
+	snaps := make([][]byte, len(values))
+	for i, v := range values {
+		snaps[i] = append([]byte(nil), v...)
+	}
+	for _, v := range values {
+		_ = append(v, 0xCC, 0xCC, 0xCC, 0xCC, 0xCC, 0xCC, 0xCC, 0xCC, 0xCC, 0xCC, 0xCC, 0xCC)
+	}
+	for i, v := range values {
+		if !bytes.Equal(v, snaps[i]) {
+			c16Shared = fmt.Sprintf("%s on %s: appending twelve octets to each value changed value %d from %s to %s", entry, hx(input), i, hx(snaps[i]), hx(v))
+			return
+		}
+	}
+}
+
+func smppValues(m smpp.TLVs) [][]byte {
+	var vs [][]byte
+	for _, t := range m {
+		vs = append(vs, t.Value())
+	}
+	return vs
+}
+
+func smgpValues(m smgp.Options) [][]byte {
+	var vs [][]byte
+	for _, o := range m {
+		vs = append(vs, o.Value())
+	}
+	return vs
+}
+
 // the four parsing entry points, rendered like Driver.handleTlv
 func goReadTLVs1(b []byte) (string, []tlv) {
 	r := packet.NewPacketReader(append([]byte(nil), b...))
@@ -73,7 +113,9 @@ func goReadTLVs1(b []byte) (string, []tlv) {
 	if m != nil {
 		ms = renderTlvs(smppMap(m))
 	}
-	return fmt.Sprintf("map=%s err=%s", ms, perrCode(r.Error())), smppMap(m)
+	out := smppMap(m)
+	valuesIndependent("ReadTLVs1", b, smppValues(m))
+	return fmt.Sprintf("map=%s err=%s", ms, perrCode(r.Error())), out
 }
 func goReadTLVs(b []byte) (string, []tlv) {
 	r := packet.NewPacketReader(append([]byte(nil), b...))
@@ -91,7 +133,9 @@ func goReadTLVs(b []byte) (string, []tlv) {
 	if err == nil {
 		code = perrCode(r.Error())
 	}
-	return fmt.Sprintf("map=%s err=%s", ms, code), smppMap(m)
+	out := smppMap(m)
+	valuesIndependent("ReadTLVs", b, smppValues(m))
+	return fmt.Sprintf("map=%s err=%s", ms, code), out
 }
 func goReadOptions(b []byte) (string, []tlv) {
 	r := packet.NewPacketReader(append([]byte(nil), b...))
@@ -104,7 +148,9 @@ func goReadOptions(b []byte) (string, []tlv) {
 	if m != nil {
 		ms = renderTlvs(smgpMap(m))
 	}
-	return fmt.Sprintf("map=%s err=%s", ms, perrCode(r.Error())), smgpMap(m)
+	out := smgpMap(m)
+	valuesIndependent("ReadOptions", b, smgpValues(m))
+	return fmt.Sprintf("map=%s err=%s", ms, perrCode(r.Error())), out
 }
 func goParseOptions(b []byte) (string, []tlv) {
 	var m smgp.Options
@@ -116,7 +162,9 @@ func goParseOptions(b []byte) (string, []tlv) {
 	if err != nil {
 		return "err", nil
 	}
-	return "ok " + renderTlvs(smgpMap(m)), smgpMap(m)
+	line, out := "ok "+renderTlvs(smgpMap(m)), smgpMap(m)
+	valuesIndependent("ParseOptions", b, smgpValues(m))
+	return line, out
 }
 
 // smgpLenAgrees: Options.Len() is the length of what Serialize() emits, also for values too long for the length field
@@ -350,6 +398,9 @@ func runC16(res *Result, d *Driver, g *Rng, tier string) {
 	if len(ops) > 0 {
 		res.Sample(ops[0] + "  =>  " + goOut[0])
 		res.Sample(ops[len(ops)-1] + "  =>  " + goOut[len(ops)-1])
+	}
+	if c16Shared != "" {
+		res.Violate("C16.values-share-storage", c16Shared, []string{"tlv parse (see the text)"})
 	}
 	res.Compare(d, "optional-parameter model vs smpp/pdu_tlv.go, smgp/options.go", ops, goOut)
 }
